@@ -89,13 +89,14 @@ def run_case(case):
         inside_t = [t0 + ((k % n) + f) * dt for k, f in case["inside"]]
         times = sorted(set(([times[0], times[-1]] if case.get("sparse") else times) + inside_t))
     ts = torch.tensor(times, dtype=torch.float64)
-    bm = brownian_tools.make_recording(sdes.make_bm(torchsde, spec, ts[0], ts[-1], case["entropy"], levy=case["levy"]))
+    # the Brownian motion is the genuine object (a proxy would hide it from ReverseBrownian); its calls are recorded on the side
+    bm = sdes.make_bm(torchsde, spec, ts[0], ts[-1], case["entropy"], levy=case["levy"])
     sig = {"noise_type": spec["noise_type"], "n": "1" if n == 1 else "many"}
-    with torch.no_grad():
+    with torch.no_grad(), brownian_tools.spy(bm) as bm_log:
         ys, (fT, gT, zT) = torchsde.sdeint(sde, y0, ts, bm=bm, method="reversible_heun", dt=dt, extra=True)
         f0, g0 = sde.f(ts[0], y0), sde.g(ts[0], y0)
-        fwd_log = [(a, b) for a, b, *_ in bm.log]
-        del bm.log[:]
+        fwd_log = list(bm_log)
+        del bm_log[:]
         ts_rev = -ts.flip(0)
         rev_api = torchsde.sdeint_adjoint if case.get("reverse_via_adjoint") else torchsde.sdeint
         supplied = (-fT, -gT, zT)
@@ -106,7 +107,7 @@ def run_case(case):
                                        extra_solver_state=supplied)
         mutated = not all(torch.equal(a_, b_) for a_, b_ in zip(supplied, supplied_before)) or \
             not torch.equal(ys[-1], y_end_before)
-        rev_log = [(a, b) for a, b, *_ in bm.log]
+        rev_log = list(bm_log)
         ys_again = None
         if case.get("third_leg"):
             # the reverse run reversed once more: SDE Reversed(Reversed(sde)) (= sde), Brownian motion reversed twice,
